@@ -128,16 +128,13 @@ def e2(ctx, F):
     order = None
     for nd, anc in hir.walk(new["hir"]["body"]):
         if nd.get("k") == "SLet" and nd["pat"].get("k") == "PBind" and nd["pat"]["name"] == "piece_scores":
-            arr = hir.strip(nd["init"])
-            if arr.get("k") == "Array":
+            # the value of the initialiser as an array of per-kind tables, however it is spelled (literal, named table list, `.map(Cell::new)`)
+            arr = hir.fold(sym(nd["init"]), {})
+            if arr[0] == "arr":
                 order = []
-                for el in arr["elems"]:
-                    t = sym(el)
-                    name = None
-                    for x in hir.subterms(t):
-                        if len(x) == 2 and x[0] == "const" and x[1].startswith("chess::scores::"):
-                            name = x[1].split("::")[-1]
-                    order.append(name)
+                for t in arr[1:]:
+                    names = [x[1].split("::")[-1] for x in hir.subterms(t) if len(x) == 2 and x[0] == "const" and str(x[1]).startswith("chess::scores::")]
+                    order.append(names[0] if len(names) == 1 else None)
     pt = F.enum_discr("chess::piece::PieceType")
     ctx.check("C16.E2", "table-order=PieceType-discriminant-order", order == TABLE_ORDER and [pt.get(k) for k in KINDS] == list(range(6)),
               fn=new["path"], file=new["file"],
@@ -201,7 +198,7 @@ def e3(ctx, F):
         if n.get("k") == "Struct" and (n["to"].get("path") or "").endswith("chess::Game") or (n.get("k") == "Struct" and n["to"].get("res") == "selfty"):
             d = {f["name"]: sym(f["e"]) for f in n["fields"]}
             lit_ok = d.get("score") == ("var", "score") and d.get("past_scores") == ("var", "past_scores") and \
-                d.get("piece_scores") in (("var", "piece_scores"),) or (d.get("piece_scores", ("x",))[0] == "arr")
+                d.get("piece_scores") in (("var", "piece_scores"),) or (hir.fold(d.get("piece_scores", ("x",)), {})[0] == "arr")
     ctx.check("C16.E3", "game-built-from-the-accumulated-values", lit_ok, fn=fn["path"], file=fn["file"],
               what="the Game value must be built from the accumulated score / past_scores / tables", found=lit_ok)
 
